@@ -30,3 +30,39 @@ func covNew(seen *[1 << 16]uint8) int {
 	}
 	return n
 }
+
+// step profile (see vs.Prof): which function consumed most yield points since profStart
+func profStart() {
+	vs.Hits = [1 << 16]uint32{}
+	vs.Prof = true
+}
+
+func profStop() { vs.Prof = false }
+
+func profDominant() (string, uint64) {
+	per := map[string]uint64{}
+	for i, h := range vs.Hits {
+		if h != 0 && i < len(vs.SiteFunc) {
+			per[vs.SiteFunc[i]] += uint64(h)
+		}
+	}
+	best, n := "", uint64(0)
+	for f, c := range per {
+		if c > n || (c == n && f < best) {
+			best, n = f, c
+		}
+	}
+	profSecond, profSecondN = "", 0
+	for f, c := range per {
+		if f != best && (c > profSecondN || (c == profSecondN && f < profSecond)) {
+			profSecond, profSecondN = f, c
+		}
+	}
+	return best, n
+}
+
+// runner-up of the last profDominant call (for the detail text)
+var (
+	profSecond  string
+	profSecondN uint64
+)
